@@ -1,5 +1,5 @@
 //! C12, coverage-guided driver: the fuzzer's bytes are offered to the bincode / JSON bridge as an
-//! event or as the response to an outstanding request, at a point of a small fixed history; the
+//! event, as the response to an outstanding request or under an id that names none, at a point of a small fixed history; the
 //! oracle is the one of the proptest campaign (`sim::fault::run_fault_case`: no panic, bounded
 //! allocation is checked by the campaign binary only, typed twin agrees afterwards).
 #![no_main]
@@ -30,7 +30,7 @@ fuzz_target!(|data: &[u8]| {
     let case = FaultCase {
         universe,
         json: head[0] & 0x80 != 0,
-        faults: vec![Fault { at: head[1] % 7, target: if head[2] & 1 == 0 { Target::Event } else { Target::Response((head[2] as u16) << 8) }, mutation: Mutation::Random(input.to_vec()) }],
+        faults: vec![Fault { at: head[1] % 7, target: match head[2] & 3 { 0 => Target::Event, 3 => Target::Stray((head[2] as u16) << 8), _ => Target::Response((head[2] as u16) << 8) }, mutation: Mutation::Random(input.to_vec()) }],
     };
     if let Err(why) = run_fault_case(&case) {
         // leave the case where the check script finds it, then crash so that the fuzzer keeps the input
